@@ -22,6 +22,10 @@ def dec(v):
         return tuple(dec(x) for x in v[1])
     if t == "d":
         return {dec(k): dec(x) for k, x in v[1]}
+    if t == "r":
+        from coba.primitives import L1Reward, BinaryReward, HammingReward, DiscreteReward
+        cls = {"L1": L1Reward, "BR": BinaryReward, "HR": HammingReward, "DR": DiscreteReward}[v[1]]
+        return cls(*[dec(a) for a in v[2]])
     raise ValueError("bad tagged value %r" % (v,))
 
 
